@@ -90,9 +90,21 @@ SPEC += [
     ("±|(Number, Number)|ka.functions.interval_plusminus", ".plusMinus", "interval_plusminus_agree h _ _"),
     ("tol|(Number, Number)|ka.functions.interval_plusminus", ".plusMinus", "interval_plusminus_agree h _ _"),
 ]
-EXTRA = os.path.join(V, "tools", "bodiesprops_extra.py")
-if os.path.exists(EXTRA):
-    exec(open(EXTRA).read())
+# arrays, ranges, variadic max / min: no hypothesis on the dispatcher is used
+SPEC += [
+    ("prod|(Array)|ka.functions.array_prod", ".arrProd", "array_prod_agree rec _"),
+    ("sum|(Array)|ka.functions.array_sum", ".arrSum", "array_sum_agree rec _"),
+    ("mean|(Array)|ka.functions.array_mean", ".arrMean", "array_mean_agree rec _"),
+    ("size|(Array)|ka.functions.array_size", ".arrSize", "array_size_agree rec _"),
+    ("max|(Array)|ka.functions.array_max", ".arrMax", "array_max_agree rec _"),
+    ("min|(Array)|ka.functions.array_min", ".arrMin", "array_min_agree rec _"),
+    ("in|(Any, Array)|ka.functions.in_array", ".inArray", "in_array_agree rec _ _"),
+    ("max|(*Number)|ka.functions.max_vararg", ".varMax", "exact max_vararg_agree rec args"),
+    ("min|(*Number)|ka.functions.min_vararg", ".varMin", "exact min_vararg_agree rec args"),
+    ('range|(Integral, Integral)|ka.functions.<lambda:register_function(lambda lo, hi: Array(list(range(lo, hi+1))), \\"range\\", (Integral, Integral), \\"Returns an array of the i>',
+     ".range", "lambda_range_agree rec _ _ (hP _ _ rfl)",
+     "fun args => ∀ lo hi : Int, args = [.num (.int lo), .num (.int hi)] → (hi + 1 - lo).toNat ≤ maxRange"),
+]
 
 HOLDS = {".num": ("holds_num", "⟨n%d, rfl⟩"), ".intv": ("holds_intv", "⟨a%d, b%d, rfl⟩"), ".arr": ("holds_arr", "⟨xs%d, rfl⟩"),
          ".qty": ("holds_qty", "⟨m%d, d%d, rfl⟩"), ".int": ("holds_int", "⟨k%d, rfl⟩"), ".any": None}
@@ -122,21 +134,24 @@ open KaVerif.Eval KaVerif.PyRt KaVerif.Bodies KaVerif.Gen.Bodies
 
 /-- The body translated from the Python source that is registered under the implementation descriptor `desc` and the
     hand-written model body under the same descriptor agree on every argument list the registered signature admits. -/
-def Bodies.Agrees (desc : String) : Prop :=
+def Bodies.AgreesOn (desc : String) (P : List Val → Prop) : Prop :=
   ∃ (g : Body) (code : BodyCode) (sh : List Shape) (va : Option Shape),
     Gen.Bodies.bodiesTable.lookup desc = some g ∧ implTable.lookup desc = some code ∧
     Gen.Bodies.bodiesShapes.lookup desc = some (sh, va) ∧
-    ∀ rec : Disp, NumDisp rec → ∀ args : List Val, wellTyped sh va args = true → g rec args = code.run rec args
+    ∀ rec : Disp, NumDisp rec → ∀ args : List Val, wellTyped sh va args = true → P args → g rec args = code.run rec args
+
+/-- agreement on every well-typed argument list (no side condition) -/
+def Bodies.Agrees (desc : String) : Prop := Bodies.AgreesOn desc (fun _ => True)
 
 /-- the three tables are keyed by distinct descriptors (so that membership is lookup) -/
 theorem Bodies.bodiesTable_nodup : (Gen.Bodies.bodiesTable.map (·.1)).Nodup := by simp [Gen.Bodies.bodiesTable]
 theorem Bodies.bodiesShapes_nodup : (Gen.Bodies.bodiesShapes.map (·.1)).Nodup := by simp [Gen.Bodies.bodiesShapes]
 theorem Bodies.implTable_nodup : (implTable.map (·.1)).Nodup := by simp [implTable]
 
-theorem Bodies.agrees_intro {desc : String} (g : Body) (code : BodyCode) (sh : List Shape) (va : Option Shape)
+theorem Bodies.agrees_intro {desc : String} {P : List Val → Prop} (g : Body) (code : BodyCode) (sh : List Shape) (va : Option Shape)
     (h1 : (desc, g) ∈ Gen.Bodies.bodiesTable) (h2 : (desc, code) ∈ implTable) (h3 : (desc, sh, va) ∈ Gen.Bodies.bodiesShapes)
-    (h4 : ∀ rec : Disp, NumDisp rec → ∀ args : List Val, wellTyped sh va args = true → g rec args = code.run rec args) :
-    Bodies.Agrees desc :=
+    (h4 : ∀ rec : Disp, NumDisp rec → ∀ args : List Val, wellTyped sh va args = true → P args → g rec args = code.run rec args) :
+    Bodies.AgreesOn desc P :=
   ⟨g, code, sh, va, lookup_of_mem_nodup _ _ _ Bodies.bodiesTable_nodup h1, lookup_of_mem_nodup _ _ _ Bodies.implTable_nodup h2,
    lookup_of_mem_nodup _ _ _ Bodies.bodiesShapes_nodup h3, h4⟩
 
@@ -146,7 +161,11 @@ theorem Bodies.agrees_intro {desc : String} (g : Body) (code : BodyCode) (sh : L
 theorem BODIES_numdisp_real (n : Nat) : NumDisp (fun nm as => dispatchV n nm as []) := numDisp_dispatchV n
 ''')
 names = []
-for desc, code, proof in SPEC:
+SIDE = {}
+for ent in SPEC:
+    desc, code, proof = ent[:3]
+    side = ent[3] if len(ent) > 3 else None
+    SIDE[desc] = side
     if desc not in BODIES:
         sys.exit("mkbodiesprops: %s is not in Gen/Bodies.bodiesTable" % desc)
     g = BODIES[desc]
@@ -157,10 +176,13 @@ for desc, code, proof in SPEC:
     if tn in names:
         sys.exit("duplicate theorem name " + tn)
     names.append(tn)
-    L.append("theorem %s : Bodies.Agrees \"%s\" := by" % (tn, desc))
+    if side is None:
+        L.append("theorem %s : Bodies.Agrees \"%s\" := by" % (tn, desc))
+    else:
+        L.append("theorem %s : Bodies.AgreesOn \"%s\"\n    (%s) := by" % (tn, desc, side))
     L.append("  refine Bodies.agrees_intro (%s) (%s) [%s] (%s)" % (g, code, ", ".join(shapes), va))
     L.append("    (by simp [Gen.Bodies.bodiesTable]) (by simp [implTable]) (by simp [Gen.Bodies.bodiesShapes]) ?_")
-    L.append("  intro rec h args hw")
+    L.append("  intro rec h args hw hP")
     if va != "Option.none":
         L.append("  " + proof)
     else:
@@ -174,14 +196,15 @@ for desc, code, proof in SPEC:
         L.append("  exact " + proof)
     L.append("")
 L.append("/-- the descriptors covered by the theorems above -/")
-L.append("def Bodies.covered : List String := [\n  " + ",\n  ".join('"%s"' % d for d, _, _ in SPEC) + "]\n")
-L.append("/-- **Summary.**  Every covered descriptor: translated body = hand-written body (see `Bodies.Agrees`). -/")
-L.append("theorem BODIES_table : ∀ d ∈ Bodies.covered, Bodies.Agrees d := by")
+L.append("def Bodies.covered : List String := [\n  " + ",\n  ".join('"%s"' % e[0] for e in SPEC) + "]\n")
+L.append("/-- **Summary.**  Every covered descriptor: translated body = hand-written body (see `Bodies.AgreesOn`; the side condition,\n"
+         "    where there is one — a size bound of the model — is stated in the descriptor's own theorem). -/")
+L.append("theorem BODIES_table : ∀ d ∈ Bodies.covered, ∃ P, Bodies.AgreesOn d P := by")
 L.append("  intro d hd")
 L.append("  simp only [Bodies.covered, List.mem_cons, List.mem_nil_iff, or_false] at hd")
 L.append("  rcases hd with " + " | ".join(["rfl"] * len(SPEC)))
 for tn in names:
-    L.append("  · exact %s" % tn)
+    L.append("  · exact ⟨_, %s⟩" % tn)
 L.append("")
 TAIL = os.path.join(V, "tools", "bodiesprops_tail.lean")
 if os.path.exists(TAIL):
